@@ -192,3 +192,107 @@ def preemption_case(rng, algo="priority", oom=False, identical=False):
     params = {"duration": rng.choice([150, 300, 500]) / tps, "ticks_per_second": tps, "num_pools": pools, "cpus_per_pool": cpus,
               "ram_gb_per_pool": R, "multi_operator_containers": True, "allow_memory_overcommit": False}
     return {"kind": "sim", "algo": algo, "params": params, "workload": {"type": "script", "arrivals": arrivals}, "_preempt": True}
+
+
+def long_sim_case(rng, algos=ALGOS, ticks=None):
+    """One long run with a steady generated workload: hundreds to thousands of pipelines and
+    containers inside a single simulation (latent faults: bounded histories, drifting
+    counters, periodic clean-ups)."""
+    algo = rng.choice(list(algos))
+    tps = rng.choice([5, 10, 20])
+    ticks = ticks or rng.choice([20000, 30000])
+    iq = rng.choice([(0.3, 0.1, 0.6), (0.3, 0.3, 0.4), (0.0, 0.25, 0.75)])
+    params = {
+        "duration": ticks / tps, "ticks_per_second": tps,
+        "num_pools": 2 if algo == "priority-pool" else rng.choice([1, 2, 4]),
+        "cpus_per_pool": rng.choice([16, 64]), "ram_gb_per_pool": rng.choice([128, 256]),
+        "multi_operator_containers": True if algo == "priority-pool" else rng.random() < 0.6,
+        "allow_memory_overcommit": algo == "overbook",
+        "waiting_seconds_mean": rng.choice([2.0, 4.0]), "num_pipelines": rng.choice([1, 2, 3]),
+        "num_operators": rng.choice([2, 4]), "interactive_prob": iq[0], "query_prob": iq[1], "batch_prob": iq[2],
+        "cpu_io_ratio": 0.5, "random_seed": rng.randint(0, 10 ** 6),
+    }
+    if algo == "vrandom":
+        params["vrandom_seed"] = rng.randint(0, 10 ** 9)
+        params["vrandom_p_suspend"] = 0.3
+    return {"kind": "sim", "algo": algo, "params": params, "workload": {"type": "generator"}, "_long": True}
+
+
+def _tiny_op(tps, ticks=1, mem=0.01, parents=()):
+    return {"parents": list(parents), "segs": [{"cpu": (ticks + 0.5) / tps, "law": "const", "mem": mem, "read": 0.0}]}
+
+
+def scale_case(rng, kind, algo=None):
+    """Cheap runs that are *large in one dimension* (latent faults: bounded histories, periodic
+    clean-ups, counters that wrap, caches that evict):
+      storm      - hundreds of preemption cycles on one tiny pool (priority): > 128 suspensions in one pool
+      many-small - thousands of tiny pipelines, steady arrivals: > 1024 completions of one class, > 512 pipelines,
+                   > 4096 container exits on one pool, pool tick counters far beyond 4096
+      crowd      - ~9000 pipelines outstanding at once (anything keyed or cached per pipeline)
+      fail-sibs  - overbook: hundreds of filler pipelines while a two-root pipeline fails three times and its sibling runs on
+    """
+    tps = 10
+    if kind == "storm":
+        cycles = rng.randint(180, 260)
+        arrivals = {}
+        t = 0
+        for c in range(cycles):
+            arrivals.setdefault(str(t), []).append({"pid": f"b{c}", "prio": rng.choice(["BATCH_PIPELINE", "INTERACTIVE"]),
+                                                    "ops": [_tiny_op(tps, 2), _tiny_op(tps, 2, parents=[0])]})
+            arrivals.setdefault(str(t + 1), []).append({"pid": f"q{c}", "prio": "QUERY", "ops": [_tiny_op(tps, 1)]})
+            t += rng.choice([7, 8, 9])
+        params = {"duration": (t + 40) / tps, "ticks_per_second": tps, "num_pools": 1, "cpus_per_pool": 1, "ram_gb_per_pool": 2,
+                  "multi_operator_containers": True}
+        return {"kind": "sim", "algo": "priority", "params": params, "workload": {"type": "script", "arrivals": arrivals},
+                "_scale": kind}
+    if kind == "many-small":
+        algo = algo or rng.choice(["naive", "priority", "priority-pool", "overbook", "vrandom"])
+        n = rng.randint(4600, 5200)
+        prio_main = rng.choice(PRIOS_L)
+        arrivals = {}
+        t = 0
+        for i in range(n):
+            prio = prio_main if rng.random() < 0.85 else rng.choice(PRIOS_L)
+            nops = rng.choice([1, 1, 2])
+            # long-tailed run times, so that order statistics depend on which samples are kept
+            ops = [_tiny_op(tps, rng.choice([1, 1, 1, 2, 2, 3, 5, 8, 13, 21, 34, 55]) if rng.random() < 0.25 else rng.choice([1, 2]),
+                            parents=([k - 1] if k else [])) for k in range(nops)]
+            if rng.random() < 0.03:
+                ops[-1]["segs"][0]["mem"] = 1000.0        # an occasional OOM
+            arrivals.setdefault(str(t), []).append({"pid": f"s{i}", "prio": prio, "ops": ops})
+            if rng.random() < 0.5:
+                t += 1
+        pools = 2 if algo == "priority-pool" else 1
+        params = {"duration": (t + 400) / tps, "ticks_per_second": tps, "num_pools": pools, "cpus_per_pool": 20, "ram_gb_per_pool": 40,
+                  "multi_operator_containers": rng.random() < 0.5 or algo == "priority-pool",
+                  "allow_memory_overcommit": algo == "overbook"}
+        if algo == "vrandom":
+            params["vrandom_seed"] = rng.randint(0, 10 ** 9)
+            params["vrandom_p_suspend"] = 0.3
+        return {"kind": "sim", "algo": algo, "params": params, "workload": {"type": "script", "arrivals": arrivals}, "_scale": kind}
+    if kind == "crowd":
+        algo = algo or rng.choice(["priority", "naive", "overbook"])
+        n = rng.randint(8800, 9600)
+        arrivals = {}
+        for i in range(n):
+            arrivals.setdefault(str(rng.randint(0, 5)), []).append(
+                {"pid": f"c{i}", "prio": rng.choice(PRIOS_L), "ops": [_tiny_op(tps, rng.choice([1, 2]))]})
+        params = {"duration": 260 / tps, "ticks_per_second": tps, "num_pools": 2, "cpus_per_pool": 10, "ram_gb_per_pool": 20,
+                  "multi_operator_containers": True, "allow_memory_overcommit": algo == "overbook"}
+        return {"kind": "sim", "algo": algo, "params": params, "workload": {"type": "script", "arrivals": arrivals}, "_scale": kind}
+    if kind == "fail-sibs":
+        n = rng.randint(650, 800)
+        arrivals = {}
+        for v in range(3):
+            tv = v * 150
+            arrivals.setdefault(str(tv), []).append({"pid": f"victim{v}", "prio": "BATCH_PIPELINE", "ops": [
+                _tiny_op(tps, 1, mem=1000.0), _tiny_op(tps, rng.randint(200, 320))]})
+        for i in range(n):
+            arrivals.setdefault(str(1 + i // 2), []).append({"pid": f"f{i}", "prio": rng.choice(PRIOS_L), "ops": [_tiny_op(tps, 1)]})
+        params = {"duration": (n // 2 + 400) / tps, "ticks_per_second": tps, "num_pools": 1, "cpus_per_pool": 4, "ram_gb_per_pool": 10,
+                  "multi_operator_containers": False, "allow_memory_overcommit": True}
+        return {"kind": "sim", "algo": "overbook", "params": params, "workload": {"type": "script", "arrivals": arrivals}, "_scale": kind}
+    raise ValueError(kind)
+
+
+PRIOS_L = list(gen.PRIOS)
